@@ -164,6 +164,40 @@ CHECKS = {
             "excludes rejected writes.",
             "Orphan empty shard files and extra dict keys are outside the "
             "statement.", "5 C18"),
+    "C01": ("exploration",
+            "round-trip over generated bit patterns x presentations x "
+            "readers (Hypothesis), bitwise comparison against the logical "
+            "array",
+            "Values drawn as bit patterns with planted specials, shapes of "
+            "rank 0-4, 9 presentations (C/F/strided/transposed/big-endian/"
+            "narrower dtype/scalar/Python objects/buffer reuse), every "
+            "format x compression, all applicable readers on the same "
+            "dataset; fb dtype+bits, npz bits after safe cast, tfrec widened "
+            "ints / float bits / bytes / UTF-8.",
+            "float128 and bool excluded; two open known findings (npz "
+            "trailing NUL, tfrec float32 signalling NaN) are excluded by "
+            "signature and counted.", "5 C01"),
+    "C17": ("exploration",
+            "grammar-generated path strings injected into every path-valued "
+            "metadata field (checksum chain repaired, decoy planted) and into "
+            "the filler sub-directory; audit hook + inotify containment "
+            "oracle",
+            "Independent lexical resolution decides whether a path escapes; "
+            "no file outside the root may be opened during open/check/two "
+            "passes, escaping metadata must be refused, everything a writer "
+            "creates must lie inside the root.",
+            "No symbolic links; Python opens via audit hook, native opens "
+            "via inotify on the sandbox outside the root.", "5 C17"),
+    "C20": ("exploration",
+            "round-trip of generated descriptions (type-aware deep "
+            "equality), relocation metamorphic test, version-triple gate vs "
+            "tuple comparison",
+            "Unicode text fields and nested JSON custom metadata at dataset/"
+            "attribute/shard level; copy or move to generated targets opened "
+            "by absolute or relative path from generated working "
+            "directories, then check, iterate, append, exactness walk; "
+            "version triples around the running version.",
+            "JSON-representable values only; no symlinks.", "5 C20"),
 }
 
 NOT_YET = {}
